@@ -308,6 +308,146 @@ Proof.
   unfold ds. rewrite digits_value_pad by exact HN. unfold pn. rewrite Z2Nat.id by lia. reflexivity.
 Qed.
 
+
+(* ---- thousands marks: the grouped text is read back as the same number ---- *)
+Lemma group3_rev_Forall (P : Z -> Prop) m : P m -> forall r n, Forall P r -> Forall P (group3_rev r n m).
+Proof.
+  intros Pm. induction r as [|x r IH]; intros n H; cbn [group3_rev]; [constructor|].
+  inversion H as [|? ? Px Hr]; subst.
+  destruct r as [|y r']; [constructor; [exact Px | constructor]|].
+  destruct (Nat.eqb (n mod 3) 2).
+  - constructor; [exact Px|]. constructor; [exact Pm|]. apply IH. exact Hr.
+  - constructor; [exact Px|]. apply IH. exact Hr.
+Qed.
+
+Lemma filter_rev {A} (f : A -> bool) (l : list A) : filter f (rev l) = rev (filter f l).
+Proof.
+  induction l as [|x l IH]; [reflexivity|]. cbn [rev filter]. rewrite filter_app, IH. cbn [filter].
+  destruct (f x); cbn [rev]; [reflexivity | apply app_nil_r].
+Qed.
+
+Lemma digits_value_filter s : forall a, digits_value a s = digits_value a (filter is_digit s).
+Proof.
+  induction s as [|c s IH]; intros a; cbn [digits_value filter]; [reflexivity|].
+  destruct (is_digit c) eqn:E; cbn [digits_value]; [rewrite E|]; apply IH.
+Qed.
+
+Lemma filter_all_digits s : all_digits s -> filter is_digit s = s.
+Proof.
+  induction 1 as [|c s Hc _ IH]; cbn [filter]; [reflexivity|]. rewrite Hc, IH. reflexivity.
+Qed.
+
+Lemma group3_rev_filter m : is_digit m = false -> forall r n, all_digits r ->
+  filter is_digit (group3_rev r n m) = r.
+Proof.
+  intros Hm. induction r as [|x r IH]; intros n H; cbn [group3_rev]; [reflexivity|].
+  inversion H as [|? ? Hx Hr]; subst.
+  destruct r as [|y r']; [cbn [filter]; rewrite Hx; reflexivity|].
+  destruct (Nat.eqb (n mod 3) 2); cbn [filter]; rewrite Hx, ?Hm; f_equal; apply IH; exact Hr.
+Qed.
+
+Lemma digits_value_group3 ip m a : is_digit m = false -> all_digits ip ->
+  digits_value a (group3 ip m) = digits_value a ip.
+Proof.
+  intros Hm Hi. rewrite digits_value_filter. unfold group3. rewrite filter_rev.
+  rewrite (group3_rev_filter m Hm (rev ip) 0) by (apply Forall_rev; exact Hi).
+  rewrite rev_involutive. reflexivity.
+Qed.
+
+(* the scan of the grouped integer digits, right to left, after the decimal point has been met: every comma stands
+   where the count of digits is a multiple of three, so none is refused *)
+Lemma scan_grouped_digits p : forall r n lc th, all_digits r ->
+  exists lc' th',
+    scan_rev (mkScan (Z.of_nat n) p lc true false true false th) (group3_rev r n 44) =
+    Ok (mkScan (Z.of_nat (n + length r)) p lc' true false true false th').
+Proof.
+  induction r as [|x r IH]; intros n lc th H; cbn [group3_rev].
+  - exists lc, th. cbn [scan_rev length]. rewrite Nat.add_0_r. reflexivity.
+  - inversion H as [|? ? Hx Hr]; subst.
+    assert (Hstep : forall lc0 th0, scan_step (mkScan (Z.of_nat n) p lc0 true false true false th0) x =
+                    Ok (mkScan (Z.of_nat (S n)) p lc0 true false true false th0)).
+    { intros lc0 th0. unfold scan_step. destruct (is_digit_not_mark x Hx) as [-> ->].
+      cbn [sc_offset sc_prec sc_last_comma sc_last_period sc_no_more_commas sc_no_more_periods sc_decimal_comma sc_thousands].
+      rewrite Nat2Z.inj_succ. repeat f_equal; try lia. }
+    destruct r as [|y r'].
+    + exists lc, th. cbn [scan_rev length]. rewrite Hstep. cbn [bind]. replace (n + 1)%nat with (S n) by lia. reflexivity.
+    + destruct (Nat.eqb (n mod 3) 2) eqn:E.
+      * (* x , rest *)
+        apply Nat.eqb_eq in E.
+        assert (Hmod : (Z.of_nat (S n)) mod 3 = 0).
+        { rewrite Nat2Z.inj_succ. pose proof (Nat.div_mod n 3 ltac:(lia)) as D.
+          assert (Z.of_nat n = 3 * Z.of_nat (n / 3) + 2) by lia.
+          replace (Z.succ (Z.of_nat n)) with ((Z.of_nat (n / 3) + 1) * 3) by lia. apply Z.mod_mul. lia. }
+        destruct (IH (S n) true true Hr) as [lc' [th' E']].
+        exists lc', th'. cbn [scan_rev]. rewrite Hstep. cbn [bind scan_rev].
+        unfold scan_step at 1. cbn [sc_offset sc_prec sc_last_comma sc_last_period sc_no_more_commas
+          sc_no_more_periods sc_decimal_comma sc_thousands]. change (44 =? 46) with false. change (44 =? 44) with true.
+        cbn iota. rewrite Hmod. cbn [Z.eqb negb bind sc_offset sc_prec sc_last_comma sc_last_period sc_no_more_commas
+          sc_no_more_periods sc_decimal_comma sc_thousands].
+        rewrite E'. cbn [length]. replace (S n + S (length r'))%nat with (n + S (S (length r')))%nat by lia. reflexivity.
+      * destruct (IH (S n) lc th Hr) as [lc' [th' E']].
+        exists lc', th'. cbn [scan_rev]. rewrite Hstep. cbn [bind]. rewrite E'. cbn [length]. replace (S n + S (length r'))%nat with (n + S (S (length r')))%nat by lia. reflexivity.
+Qed.
+
+(* print -> read round trip with thousands marks: N / 10^p printed in a style that groups the integer digits in threes
+   is read back as exactly N with precision p, without error and without taking a comma for a decimal mark *)
+Theorem grouped_text_roundtrip N p sfx sep :
+  0 <= N -> 0 < p ->
+  exists th, scan_quantity false (quantity_text (mkStyle sfx sep true false) true false N p p) = Ok (mkPQ N p th false).
+Proof.
+  intros HN Hp. unfold quantity_text, scan_quantity. cbn [st_thousands st_decimal_comma andb app].
+  rewrite Z.abs_eq by exact HN.
+  set (pn := Z.to_nat p). set (ds := pad_left (S pn) (digits N)).
+  set (k := (length ds - pn)%nat).
+  assert (Hds : all_digits ds) by (apply all_digits_pad, all_digits_digits; exact HN).
+  assert (Hlen : (S pn <= length ds)%nat).
+  { unfold ds, pad_left. rewrite app_length, repeat_length. lia. }
+  assert (Hfp : length (skipn k ds) = pn) by (rewrite skipn_length; unfold k; lia).
+  assert (Htrim : trim_fraction (skipn k ds) p = skipn k ds).
+  { unfold trim_fraction. rewrite Hfp. fold pn. rewrite Nat.sub_diag. cbn [strip_zeros_rev].
+    apply rev_involutive. }
+  rewrite Htrim.
+  assert (Hne : skipn k ds <> []).
+  { intros E. rewrite E in Hfp. cbn in Hfp. unfold pn in Hfp. lia. }
+  destruct (skipn k ds) as [|f0 fr] eqn:Efp; [contradiction|].
+  rewrite <- Efp. rewrite <- Efp in Hfp.
+  assert (Hip : all_digits (firstn k ds)) by (apply Forall_firstn'; exact Hds).
+  assert (Hfr : all_digits (skipn k ds)) by (apply Forall_skipn'; exact Hds).
+  set (ip := firstn k ds) in *. set (fp := skipn k ds) in *.
+  (* the scan *)
+  assert (Hscan : exists lc th, scan_rev (mkScan 0 0 false false false false false false) (rev (group3 ip 44 ++ 46 :: fp)) =
+                  Ok (mkScan (Z.of_nat (length ip)) p lc true false true false th)).
+  { rewrite rev_app_distr. cbn [rev]. rewrite <- app_assoc. cbn [app].
+    assert (Hrf : all_digits (rev fp)) by (apply Forall_rev; exact Hfr).
+    rewrite scan_rev_app, (scan_rev_digits _ Hrf). cbn [bind scan_rev sc_offset sc_prec sc_last_comma
+      sc_last_period sc_no_more_commas sc_no_more_periods sc_decimal_comma sc_thousands].
+    rewrite Z.add_0_l, scan_step_point. cbn [bind].
+    unfold group3. rewrite rev_involutive.
+    destruct (scan_grouped_digits (Z.of_nat (length (rev fp))) (rev ip) 0 false false (Forall_rev Hip)) as [lc [th E]].
+    exists lc, th. change (Z.of_nat 0) with 0 in E. rewrite E. rewrite rev_length, rev_length. cbn [Nat.add].
+    rewrite Hfp. unfold pn. rewrite Z2Nat.id by lia. reflexivity. }
+  destruct Hscan as [lc [th Hscan]]. exists th. rewrite Hscan. cbn [bind sc_prec sc_thousands sc_decimal_comma].
+  assert (Hfirst : match group3 ip 44 ++ 46 :: fp with 45 :: _ => true | _ => false end = false).
+  { assert (HF : Forall (fun c => c <> 45) (group3 ip 44 ++ 46 :: fp)).
+    { apply Forall_app. split.
+      - unfold group3. apply Forall_rev. apply group3_rev_Forall; [discriminate|]. apply Forall_rev.
+        eapply Forall_impl; [|exact Hip]. intros c Hc. cbn beta in Hc. unfold is_digit in Hc.
+        apply andb_true_iff in Hc as [Hc _]. apply Z.leb_le in Hc. lia.
+      - constructor; [discriminate|]. eapply Forall_impl; [|exact Hfr]. intros c Hc. cbn beta in Hc. unfold is_digit in Hc.
+        apply andb_true_iff in Hc as [Hc _]. apply Z.leb_le in Hc. lia. }
+    destruct (group3 ip 44 ++ 46 :: fp) as [|c0 r0]; [reflexivity|].
+    apply not_minus_head. exact (Forall_inv HF). }
+  rewrite Hfirst.
+  rewrite digits_value_app, (digits_value_group3 ip 44 0 eq_refl Hip), <- digits_value_app.
+  rewrite digits_value_mark by reflexivity. unfold ip, fp. rewrite firstn_skipn.
+  unfold ds. rewrite digits_value_pad by exact HN. reflexivity.
+Qed.
+
+Example grouped_roundtrip_example :
+  quantity_text (mkStyle false false true false) true false 123456789 2 2 = [49;44;50;51;52;44;53;54;55;46;56;57] /\
+  scan_quantity false [49;44;50;51;52;44;53;54;55;46;56;57] = Ok (mkPQ 123456789 2 true false).
+Proof. vm_compute. split; reflexivity. Qed.
+
 (* ---- report columns: quotes are dropped only where the text stays unambiguous ---- *)
 Lemma column_symbol_text_cases st sym :
   column_symbol_text st sym = symbol_text sym \/
